@@ -180,7 +180,7 @@ impl<'a, Alloc: alloc::Allocator<u16> + alloc::Allocator<u32> + alloc::Allocator
     pub fn choose_stride(&self, stride_data: &mut [u8]) {
         assert_eq!(stride_data.len(), self.cur_score_epoch);
         assert!(self.score.slice().len() > stride_data.len());
-        assert!(self.score.slice().len() > (stride_data.len() << 3) + 7 + 8);
+        assert!(self.score.slice().len() >= (stride_data.len() << 3) + 8);
         for (index, choice) in stride_data.iter_mut().enumerate() {
             let choices = self
                 .score
